@@ -387,6 +387,92 @@ func wayCaseN(class string, ns []wn, tags osm.Tags) *wire.Case {
 	return c
 }
 
+// seqStep is one call of Polygon() in a sequence on the SAME Way value.
+type seqStep struct {
+	ns   []wn
+	tags osm.Tags
+	copy bool // before this step the Way struct is copied by value (w2 := *w) and used from then on
+}
+
+func wayNodeOf(n wn) osm.WayNode {
+	if n.ann {
+		return osm.WayNode{ID: osm.NodeID(n.id), Version: int(n.ver), ChangesetID: osm.ChangesetID(n.cs), Lat: float64(n.lat) / 1e7, Lon: float64(n.lon) / 1e7}
+	}
+	return osm.WayNode{ID: osm.NodeID(n.id)}
+}
+
+// waySeqCase calls Polygon() several times on one Way and edits it IN PLACE between the calls:
+// when a step has as many nodes / tags as the way has, the elements of the existing slices are
+// overwritten (w.Tags[i] = ..., w.Nodes[i] = ...), otherwise fresh slices are assigned.  State
+// that an earlier call may have left on the object must not change a later answer.
+func waySeqCase(class string, steps []seqStep) *wire.Case {
+	c := &wire.Case{Class: class}
+	c.Int(7).Len(len(steps))
+	w := &osm.Way{ID: 7, Version: 1, Visible: true}
+	var rows []interface{}
+	for i, st := range steps {
+		how := "fresh slices"
+		if st.copy {
+			cp := *w
+			w = &cp
+			how = "struct copied by value; "
+			w.Tags = cloneTags(st.tags)
+			how += "fresh tag slice"
+			if len(w.Nodes) == len(st.ns) {
+				for j, n := range st.ns {
+					w.Nodes[j] = wayNodeOf(n)
+				}
+			} else {
+				w.Nodes = nil
+				for _, n := range st.ns {
+					w.Nodes = append(w.Nodes, wayNodeOf(n))
+				}
+			}
+		} else {
+			if i > 0 && len(w.Tags) == len(st.tags) {
+				for j := range st.tags {
+					w.Tags[j] = st.tags[j]
+				}
+				how = "tags overwritten in place"
+			} else {
+				w.Tags = cloneTags(st.tags)
+			}
+			if i > 0 && len(w.Nodes) == len(st.ns) {
+				for j, n := range st.ns {
+					w.Nodes[j] = wayNodeOf(n)
+				}
+				how += ", nodes overwritten in place"
+			} else {
+				w.Nodes = nil
+				for _, n := range st.ns {
+					w.Nodes = append(w.Nodes, wayNodeOf(n))
+				}
+			}
+		}
+		obs := callWay(w)
+		c.Len(len(st.ns))
+		for _, n := range st.ns {
+			c.Int(n.id).Bool(n.ann)
+			if n.ann {
+				c.Int(n.ver).Int(n.cs).Int(n.lat).Int(n.lon)
+			}
+		}
+		putTags(c, st.tags)
+		c.Int(int64(obs))
+		row := map[string]interface{}{"call": i + 1, "edit_before_call": how, "node_ids": idsOf(st.ns), "tags": showTags(st.tags), "observed": obsName(obs)}
+		if distinctKeys(st.tags) {
+			exp := specWay(idsOf(st.ns), st.tags)
+			row["expected"] = exp
+			if obs != b2i(exp) && c.OracleFail == "" {
+				c.OracleFail = fmt.Sprintf("call %d of Polygon() on the same way = %v, its nodes and tags at that call say %v", i+1, obsName(obs), exp)
+			}
+		}
+		rows = append(rows, row)
+	}
+	c.Desc = map[string]interface{}{"call": "Way.Polygon several times on ONE Way value, edited in place between the calls", "calls": rows}
+	return c
+}
+
 func relCase(class string, tags osm.Tags) *wire.Case {
 	r := &osm.Relation{ID: 9, Version: 1, Visible: true, Tags: cloneTags(tags),
 		Members: osm.Members{{Type: osm.TypeWay, Ref: 1, Role: "outer"}}}
@@ -574,7 +660,7 @@ func main() {
 	a := wire.ParseArgs()
 	rng := wire.Rng(a.Seed)
 	w := wire.NewWriter("C18", a.Seed, a.Tier)
-	w.Rule = "single-key sweep (exhaustive): every rule key (run-time table + published table) x (every value listed for any key + specials \"\", no, yes, unlisted, No, ... + byte-order neighbours of the key's own listed values [thorough: of all listed values]) x area in {absent, \"\", no, yes, x}, both tag orders alternating, on a closed 4-ring; length sweep 0..7 x closed/open/all-equal x tag sets; every id sequence over {1,2,3} of length 0..5; way nodes are full WayNode values: half of all way cases bare refs, the others rotate through 7 annotation patterns (own location per position, same spot at both ends with different ids, ends only, one end only, all on one spot, version without location) plus a dedicated pattern x refs x tag-set sweep and random nodes over small id/version/location alphabets; near-miss keys (rule key, area, type with a space/colon/s/NUL added, a byte dropped, upper case) with firing values; pairs (list key x any key) x pass/fail/no values x both orders; random tag sets in 3-6 (or all) orders; irrelevant and near-miss keys inserted; duplicate keys (model only); the other fields of Way / Relation (id, version, visible, user, timestamp, committed, updates, bounds, members) rotate through 6 variants and must not matter; relations: type values x other tags x positions; Tags.Find and HasTag/FindTag/Map/AnyInteresting on present/absent/near-miss/duplicated keys and on the uninteresting keys; the run-time table. distinct = distinct token streams; trivial = none."
+	w.Rule = "single-key sweep (exhaustive): every rule key (run-time table + published table) x (every value listed for any key + specials \"\", no, yes, unlisted, No, ... + byte-order neighbours of the key's own listed values [thorough: of all listed values]) x area in {absent, \"\", no, yes, x}, both tag orders alternating, on a closed 4-ring; length sweep 0..7 x closed/open/all-equal x tag sets; every id sequence over {1,2,3} of length 0..5; way nodes are full WayNode values: half of all way cases bare refs, the others rotate through 7 annotation patterns (own location per position, same spot at both ends with different ids, ends only, one end only, all on one spot, version without location) plus a dedicated pattern x refs x tag-set sweep and random nodes over small id/version/location alphabets; near-miss keys (rule key, area, type with a space/colon/s/NUL added, a byte dropped, upper case) with firing values; pairs (list key x any key) x pass/fail/no values x both orders; random tag sets in 3-6 (or all) orders; irrelevant and near-miss keys inserted; duplicate keys (model only); the other fields of Way / Relation (id, version, visible, user, timestamp, committed, updates, bounds, members) rotate through 6 variants and must not matter; composite values (a listed value joined to another by ; , | space ...: not listed); 12..33 (thorough ..257) tags with present-but-empty deciding values at the front, back or middle; a dictionary of ~50 common OSM tags as unrelated tags next to satisfying / non-satisfying tag sets; sequences of Polygon() calls on ONE Way edited in place between the calls (same lengths, struct copies); relations: type values x other tags x positions; Tags.Find and HasTag/FindTag/Map/AnyInteresting on present/absent/near-miss/duplicated keys and on the uninteresting keys; the run-time table. distinct = distinct token streams; trivial = none."
 	thorough := a.Tier == "thorough"
 
 	rt := osm.VerifPolyConditions()
@@ -721,6 +807,156 @@ func main() {
 	for _, nk := range nearKeys("type") {
 		w.Add(relCase("near-miss-key", osm.Tags{{Key: nk, Value: "multipolygon"}}))
 		w.Add(relCase("near-miss-key", osm.Tags{{Key: nk, Value: "boundary"}, {Key: "type", Value: "route"}}))
+	}
+
+	// composite values: a listed value inside a longer literal is NOT listed (separators ; , | space :)
+	for _, r := range published {
+		if r.cond == 0 {
+			for _, v := range []string{"no;yes", "yes;no", ";", "no;", ";no", "no;no", "no,yes", "no yes"} {
+				w.Add(wayCase("composite-value", ring4, osm.Tags{{Key: r.key, Value: v}}))
+			}
+			continue
+		}
+		parts := []string{r.values[0], r.values[len(r.values)-1], "unlisted_value", "no", ""}
+		seps := []string{";", "; ", ",", "|", " "}
+		if thorough {
+			parts = append(append([]string{}, r.values...), "unlisted_value", "no", "", "yes")
+			seps = append(seps, ":", "/", ";;", " ; ", "\t", "\n")
+		}
+		for _, a := range parts {
+			for _, b := range parts {
+				for _, sep := range seps {
+					w.Add(wayCase("composite-value", ring4, osm.Tags{{Key: r.key, Value: a + sep + b}}))
+				}
+			}
+			for _, v := range []string{" " + a, a + " ", strings.ToUpper(a), a + ";"} {
+				w.Add(wayCase("composite-value", ring4, osm.Tags{{Key: r.key, Value: v}}))
+			}
+		}
+	}
+
+	// many tags: size thresholds of the tag list (12/13, 16/17, 32/33, 64/65 ...) combined with
+	// present-but-EMPTY values, the deciding tags first, last or in the middle of the fillers
+	sizes := []int{12, 13, 16, 17, 18, 32, 33}
+	if thorough {
+		sizes = []int{8, 9, 12, 13, 15, 16, 17, 18, 31, 32, 33, 63, 64, 65, 127, 128, 129, 255, 256, 257}
+	}
+	deciding := []osm.Tags{
+		{{Key: "area", Value: ""}, {Key: "highway", Value: "residential"}},
+		{{Key: "area", Value: ""}, {Key: "building", Value: "yes"}},
+		{{Key: "building", Value: ""}},
+		{{Key: "natural", Value: ""}},
+		{{Key: "landuse", Value: ""}, {Key: "highway", Value: "primary"}},
+		{{Key: "area", Value: "no"}, {Key: "building", Value: "yes"}},
+		{{Key: "building", Value: "yes"}},
+		{{Key: "highway", Value: "services"}},
+		{{Key: "natural", Value: "cliff"}},
+		{{Key: "building", Value: "no"}, {Key: "waterway", Value: "dam"}},
+		nil,
+	}
+	for _, n := range sizes {
+		for di, d := range deciding {
+			if len(d) > n {
+				continue
+			}
+			for pos := 0; pos < 3; pos++ {
+				if !thorough && pos != (di+n)%3 {
+					continue
+				}
+				nf := n - len(d)
+				fill := make(osm.Tags, nf)
+				for i := range fill {
+					v := "v"
+					if i%5 == 4 {
+						v = "" // empty values among the unrelated tags too
+					}
+					fill[i] = osm.Tag{Key: fmt.Sprintf("k%d", i), Value: v}
+				}
+				var tags osm.Tags
+				switch pos {
+				case 0:
+					tags = append(cloneTags(d), fill...)
+				case 1:
+					tags = append(cloneTags(fill), d...)
+				default:
+					tags = append(append(cloneTags(fill[:nf/2]), d...), fill[nf/2:]...)
+				}
+				w.Add(wayCase("many-tags", ring4, tags))
+				w.Count(fmt.Sprintf("many-tags.n_%d", n))
+			}
+		}
+	}
+
+	// a dictionary of common OSM tags as UNRELATED tags: none of them may change the answer
+	common := []osm.Tag{{Key: "junction", Value: "roundabout"}, {Key: "junction", Value: "circular"}, {Key: "junction", Value: "yes"}, {Key: "oneway", Value: "yes"}, {Key: "oneway", Value: "-1"},
+		{Key: "bridge", Value: "yes"}, {Key: "tunnel", Value: "yes"}, {Key: "layer", Value: "-1"}, {Key: "level", Value: "0"}, {Key: "surface", Value: "paved"}, {Key: "lanes", Value: "2"},
+		{Key: "access", Value: "private"}, {Key: "access", Value: "no"}, {Key: "type", Value: "multipolygon"}, {Key: "type", Value: "boundary"}, {Key: "route", Value: "bus"}, {Key: "service", Value: "driveway"},
+		{Key: "covered", Value: "yes"}, {Key: "height", Value: "10"}, {Key: "addr:housenumber", Value: "1"}, {Key: "source", Value: "survey"}, {Key: "note", Value: "x"}, {Key: "fixme", Value: "yes"},
+		{Key: "disused", Value: "yes"}, {Key: "abandoned", Value: "yes"}, {Key: "demolished", Value: "yes"}, {Key: "proposed", Value: "yes"}, {Key: "construction", Value: "yes"}, {Key: "razed", Value: "yes"},
+		{Key: "disused:building", Value: "yes"}, {Key: "was:building", Value: "yes"}, {Key: "embankment", Value: "yes"}, {Key: "cutting", Value: "yes"}, {Key: "foot", Value: "yes"}, {Key: "bicycle", Value: "no"},
+		{Key: "name", Value: "no"}, {Key: "ref", Value: ""}, {Key: "closed", Value: "no"}, {Key: "polygon", Value: "no"}, {Key: "linear", Value: "yes"}, {Key: "geometry", Value: "line"},
+		{Key: "attraction", Value: "roller_coaster"}, {Key: "cycleway", Value: "track"}, {Key: "footway", Value: "sidewalk"}, {Key: "sport", Value: "running"}, {Key: "piste:type", Value: "downhill"},
+		{Key: "aerialway", Value: "gondola"}, {Key: "roof:shape", Value: "flat"}, {Key: "wall", Value: "no"}, {Key: "fence_type", Value: "wire"}, {Key: "water", Value: "lake"}, {Key: "intermittent", Value: "yes"}}
+	satisfying := []osm.Tags{
+		{{Key: "landuse", Value: "grass"}}, {{Key: "highway", Value: "services"}}, {{Key: "building", Value: "yes"}}, {{Key: "natural", Value: "water"}},
+		{{Key: "highway", Value: "primary"}, {Key: "man_made", Value: "bridge"}}, {{Key: "highway", Value: "primary"}}, {{Key: "natural", Value: "cliff"}}, nil, {{Key: "area", Value: "yes"}}, {{Key: "area", Value: "no"}, {Key: "leisure", Value: "park"}},
+	}
+	for ci, ct := range common {
+		if keys.m[ct.Key] || ct.Key == "area" {
+			continue
+		}
+		for si, st := range satisfying {
+			if !thorough && (ci+si)%2 == 1 && ct.Key != "junction" {
+				continue
+			}
+			if (ci+si)%2 == 0 {
+				w.Add(wayCase("common-unrelated-tag", ring4, append(osm.Tags{ct}, st...)))
+			} else {
+				w.Add(wayCase("common-unrelated-tag", ring4, append(cloneTags(st), ct)))
+			}
+		}
+	}
+
+	// several calls on ONE Way value, edited in place between the calls (state left on the object)
+	closed4, open4 := annotate([]int64{1, 2, 3, 1}, 0), annotate([]int64{1, 2, 3, 4}, 0)
+	closed5a, closed5b := annotate([]int64{1, 2, 3, 4, 1}, 1), annotate([]int64{1, 2, 3, 4, 1}, 2)
+	tg := func(kv ...string) osm.Tags {
+		var t osm.Tags
+		for i := 0; i+1 < len(kv); i += 2 {
+			t = append(t, osm.Tag{Key: kv[i], Value: kv[i+1]})
+		}
+		return t
+	}
+	seqs := [][]seqStep{
+		{{ns: closed4, tags: tg("building", "yes")}, {ns: closed4, tags: tg("building", "no")}, {ns: closed4, tags: tg("building", "yes")}},
+		{{ns: closed4, tags: tg("building", "no")}, {ns: closed4, tags: tg("building", "yes")}},
+		{{ns: closed4, tags: tg("highway", "residential")}, {ns: closed4, tags: tg("area", "yes")}, {ns: closed4, tags: tg("area", "no")}},
+		{{ns: closed4, tags: tg("building", "yes")}, {ns: open4, tags: tg("building", "yes")}, {ns: closed4, tags: tg("building", "yes")}},
+		{{ns: open4, tags: tg("building", "yes")}, {ns: closed4, tags: tg("building", "yes")}},
+		{{ns: closed4, tags: tg("building", "yes", "name", "x")}, {ns: closed4, tags: tg("name", "x", "highway", "primary"), copy: true}},
+		{{ns: closed4, tags: tg("highway", "primary", "name", "x")}, {ns: closed4, tags: tg("name", "x", "landuse", "grass"), copy: true}, {ns: closed4, tags: tg("name", "y", "landuse", "no")}},
+		{{ns: closed4, tags: tg("building", "yes")}, {ns: closed4, tags: tg("building", "yes")}, {ns: closed4, tags: tg("building", "yes")}},
+		{{ns: closed5a, tags: tg("natural", "cliff")}, {ns: closed5b, tags: tg("natural", "water")}, {ns: closed5a, tags: tg("natural", "cliff")}},
+		{{ns: closed4, tags: tg("building", "yes")}, {ns: closed5a, tags: tg("building", "yes", "name", "x")}, {ns: annotate([]int64{1, 2, 1}, 0), tags: nil}, {ns: closed4, tags: tg("highway", "services")}},
+		{{ns: nil, tags: nil}, {ns: closed4, tags: tg("amenity", "parking")}, {ns: nil, tags: nil}},
+	}
+	for _, sq := range seqs {
+		w.Add(waySeqCase("way-sequence", sq))
+	}
+	nseq := int(40 * a.Scale)
+	if thorough {
+		nseq = int(1500 * a.Scale)
+	}
+	seqTags := []osm.Tags{tg("building", "yes", "name", "x"), tg("building", "no", "name", "x"), tg("name", "x", "area", "yes"), tg("area", "no", "building", "yes"), tg("highway", "primary", "name", "x"),
+		tg("highway", "services", "ref", "1"), tg("natural", "cliff", "name", "x"), tg("natural", "water", "name", "x"), tg("name", "x", "ref", "1"), tg("area", "", "landuse", "grass")}
+	seqRings := [][]wn{closed4, open4, annotate([]int64{5, 5, 5, 5}, 0), annotate([]int64{1, 2, 3, 1}, 1), annotate([]int64{1, 2, 3, 4}, 2)}
+	for i := 0; i < nseq; i++ {
+		n := 2 + rng.Intn(4)
+		sq := make([]seqStep, n)
+		for j := range sq {
+			sq[j] = seqStep{ns: seqRings[rng.Intn(len(seqRings))], tags: seqTags[rng.Intn(len(seqTags))], copy: j > 0 && rng.Intn(6) == 0}
+		}
+		w.Add(waySeqCase("way-sequence", sq))
 	}
 
 	// 2. closed / length sweep
@@ -1020,6 +1256,10 @@ func main() {
 		c7.Toks[len(c7.Toks)-1] = 2 // AnyInteresting reported true for uninteresting tags only
 		c7.Canary, c7.OracleFail = 1, ""
 		w.Add(c7)
+		c8 := waySeqCase("", []seqStep{{ns: annotate([]int64{1, 2, 3, 1}, 0), tags: osm.Tags{{Key: "building", Value: "yes"}}}, {ns: annotate([]int64{1, 2, 3, 1}, 0), tags: osm.Tags{{Key: "building", Value: "no"}}}})
+		c8.Toks[len(c8.Toks)-1] = 2 // the second call repeats the first (stale) answer
+		c8.Canary, c8.OracleFail = 1, ""
+		w.Add(c8)
 		c5 := findCase("", osm.Tags{{Key: "name", Value: "x"}, {Key: "area", Value: "yes"}}, "area")
 		c5.Toks[len(c5.Toks)-1] ^= 1 // last byte of the observed value
 		c5.Canary, c5.OracleFail = 1, ""
